@@ -35,6 +35,9 @@ type funcPrint struct {
 type anchorTable struct {
 	Fields map[string]fieldPrint `json:"fields"`
 	Funcs  map[string]funcPrint  `json:"funcs"`
+	// AllFuncs: names of the lal functions of the reference tree (to tell a function that an
+	// edit introduced from one the reviewed-invariant table was written against)
+	AllFuncs []string `json:"all_funcs,omitempty"`
 }
 
 var (
@@ -77,11 +80,33 @@ func SaveAnchors(path string) error {
 	for k, v := range recorded.Funcs {
 		t.Funcs[k] = v
 	}
+	if len(recorded.AllFuncs) > 0 {
+		t.AllFuncs = recorded.AllFuncs
+	}
 	b, err := json.MarshalIndent(t, "", " ")
 	if err != nil {
 		return err
 	}
 	return os.WriteFile(path, b, 0644)
+}
+
+// RecordAllFuncs notes the reference tree's function names (with -gen-anchors).
+func RecordAllFuncs(names []string) {
+	sort.Strings(names)
+	recorded.AllFuncs = names
+}
+
+// RefFuncs returns the reference tree's function names (nil when the table has none).
+func RefFuncs() map[string]bool {
+	t := loadAnchors()
+	if len(t.AllFuncs) == 0 {
+		return nil
+	}
+	m := map[string]bool{}
+	for _, n := range t.AllFuncs {
+		m[n] = true
+	}
+	return m
 }
 
 func structOf(n *types.Named) *types.Struct {
